@@ -85,6 +85,7 @@ type SchedStep struct {
 
 // Exec is one execution (one path).
 type Exec struct {
+	pools  map[*Value][]Value // sync.Pool contents of this execution
 	in     *Interp
 	cfg    Config
 	solver *smt.Solver
